@@ -47,4 +47,44 @@ func runC09(c *ctxT) {
 		}
 		fragTellCase(c, k, inner, cfg, uint64(i)*13+5, size)
 	}
+	// ---- whole stacks of real layers: mux, fragmenting, P2PKE, multi-transport ----
+	nStack := c.scale(260, 4000)
+	for i := 0; i < nStack; i++ {
+		rr := r.Fork()
+		spec := genStack(rr)
+		if spec.Ke {
+			probe := newStackWorld(stackSpec{Base: spec.Base, Lower: spec.Lower}, 1)
+			room := probe.ends[0].mtu()
+			probe.close()
+			if room < 600 {
+				spec.Ke, spec.Upper = false, nil
+			}
+		}
+		kind := rr.Intn(8)
+		stackTellCase(c, spec, uint64(i)*11+3, func(reported int) int {
+			sz := reported
+			switch kind {
+			case 0:
+				sz = reported + 1
+			case 1:
+				sz = reported - 1
+			case 2:
+				sz = gen.Pick(rr, []int{0, 1, 2, 100})
+			case 3:
+				if reported > 0 {
+					sz = rr.Intn(reported + 1)
+				}
+			case 4:
+				sz = reported + gen.Pick(rr, []int{2, 20, 100, 5000})
+			}
+			// very large payloads stay rare in the quick tier
+			if sz > 70000 && !(c.thorough() || i%40 == 0) {
+				sz = sz % 3000
+			}
+			if sz > 1100000 {
+				sz = 1100000
+			}
+			return sz
+		})
+	}
 }
